@@ -1108,6 +1108,89 @@ def accumulation_correspondence(ctx):
                    "correspondence", not wrong, str(wrong))
 
 
+def enc_int_mat(M):
+    return ";".join(",".join(str(int(v)) for v in row) for row in np.asarray(M).tolist()) or "-"
+
+
+def isrn_snapshot(isrn, tag):
+    """round 5: request for the Lean model `Pyunicorn.CrossISRN` (assembly of the adjacency matrix
+    from the three recurrence matrices, the four wrappers, the cross recurrence rate) and the
+    implementation's results on the same object"""
+    Nx, N = int(isrn.N_x), int(isrn.N)
+    Lx, Ly = list(range(Nx)), list(range(Nx, N))
+    req = " ".join(["isrn", str(Nx), str(N), enc_int_mat(isrn.rp_x.recurrence_matrix()),
+                    enc_int_mat(isrn.crp_xy.recurrence_matrix()),
+                    enc_int_mat(isrn.rp_y.recurrence_matrix())])
+
+    def q(f):
+        with contextlib.redirect_stdout(io.StringIO()):
+            return call(f)
+    res = {"adjacency": q(lambda: isrn.adjacency),
+           "cross_global_clustering_xy": q(isrn.cross_global_clustering_xy),
+           "cross_global_clustering_yx": q(isrn.cross_global_clustering_yx),
+           "cross_transitivity_xy": q(isrn.cross_transitivity_xy),
+           "cross_transitivity_yx": q(isrn.cross_transitivity_yx),
+           "cross_recurrence_rate": q(isrn.cross_recurrence_rate),
+           "cross_link_density_xy": q(lambda: isrn.cross_link_density(Lx, Ly)),
+           "n_links": q(lambda: isrn.n_links)}
+    return req, res, f"{tag} N_x={Nx} N_y={N - Nx}"
+
+
+def isrn_correspondence(ctx, todo):
+    if not todo:
+        return
+    model = common.driver(ctx.pid, [t[0] for t in todo])
+    bad, ncmp = [], 0
+    for (req, res, meta), ans in zip(todo, model):
+        got = dict(kv.split("=", 1) for kv in ans.split("|")) if "=" in ans else {}
+        for nm, iv in res.items():
+            ncmp += 1
+            if nm not in got or not same(iv, parse_model(got[nm])):
+                bad.append((nm, meta, req[:200], got.get(nm, ans)[:160], str(iv)[:160]))
+    ctx.count("isrn:results-compared-with-model", ncmp)
+    ctx.extra["isrn_results_compared"] = ncmp
+    ctx.obligation(f"correspondence: Lean model CrossISRN (adjacency assembled from R_x, CR_xy, R_y "
+                   f"with flat[::N+1] = 0, the four xy / yx wrappers, cross recurrence rate, "
+                   f"n_links) == InterSystemRecurrenceNetwork ({ncmp} results on {len(todo)} "
+                   f"states of {len(set(t[2] for t in todo))} objects, fixed-threshold and "
+                   f"fixed-recurrence-rate constructors, re-thresholded objects)",
+                   "correspondence", not bad,
+                   "\n".join(f"{nm} {meta} {rq} :: model={mv} impl={iv}"
+                             for nm, meta, rq, mv, iv in bad[:6]))
+
+
+def isrn_relations(ctx, isrn, info):
+    """implementation only (theorems isrn_cross_recurrence_rate, isrn_n_links, isrn_blocks)"""
+    Nx, N = int(isrn.N_x), int(isrn.N)
+    Lx, Ly = list(range(Nx)), list(range(Nx, N))
+    ctx.count("relation:isrn-blocks")
+    try:
+        with contextlib.redirect_stdout(io.StringIO()):
+            CR = np.asarray(isrn.crp_xy.recurrence_matrix()).astype(int)
+            Rx = np.asarray(isrn.rp_x.recurrence_matrix()).astype(int)
+            Ry = np.asarray(isrn.rp_y.recurrence_matrix()).astype(int)
+            A = np.asarray(isrn.adjacency).astype(int)
+            ok = np.array_equal(np.asarray(isrn.cross_adjacency(Lx, Ly)).astype(int), CR) and \
+                np.array_equal(np.asarray(isrn.cross_adjacency(Ly, Lx)).astype(int), CR.T) and \
+                np.array_equal(np.asarray(isrn.internal_adjacency(Lx)).astype(int),
+                               Rx - np.diag(np.diag(Rx))) and \
+                np.array_equal(np.asarray(isrn.internal_adjacency(Ly)).astype(int),
+                               Ry - np.diag(np.diag(Ry))) and \
+                abs(isrn.cross_recurrence_rate() - isrn.cross_link_density(Lx, Ly)) < 1e-12 and \
+                int(isrn.n_links) == int(isrn.number_internal_links(Lx)) + \
+                int(isrn.number_internal_links(Ly)) + int(CR.sum()) and \
+                not np.any(np.diag(A)) and np.array_equal(A, A.T)
+        what = ""
+    except Exception as e:  # noqa
+        ok, what = False, "raise:" + type(e).__name__
+    if not ok:
+        ctx.fail({"class": "InterSystemRecurrenceNetwork", "method": "adjacency / blocks",
+                  "relation": "blocks-are-recurrence-matrices"},
+                 "the x / y / cross blocks of an InterSystemRecurrenceNetwork are not its recurrence "
+                 "/ cross recurrence matrices (or cross recurrence rate != cross link density, "
+                 "n_links != sum over the blocks) " + what, info)
+
+
 def subclass_checks(ctx, quick):
     """objects of the subclasses of InteractingNetworks (VisibilityGraph,
     InterSystemRecurrenceNetwork) run through the same definitions on the sub-blocks of *their*
@@ -1155,17 +1238,30 @@ def subclass_checks(ctx, quick):
         with contextlib.redirect_stdout(io.StringIO()):
             vg = VisibilityGraph(ts, horizontal=rng.random() < 0.4, silence_level=3)
         run_pairs(as_case(vg, "VisibilityGraph"), 2)
-    for _ in range(3 if quick else 12):
-        nx, ny = rng.randrange(3, 8), rng.randrange(3, 8)
+    todo = []
+    for _ in range(5 if quick else 24):
+        nx, ny = rng.randrange(3, 9), rng.randrange(3, 9)
         x = np.array([rng.randrange(0, 12) / 4.0 for _ in range(nx)])
         y = np.array([rng.randrange(0, 12) / 4.0 for _ in range(ny)])
-        th = rng.choice([0.3, 0.6, 1.1])
+        # dyadic data and thresholds strictly between two attainable distances (multiples of 1/4)
+        ths = tuple(rng.choice([0.125, 0.375, 0.625, 1.125, 1.625]) for _ in range(3))
+        th = ths
+        by_rate = rng.random() < 0.3
         try:
             with contextlib.redirect_stdout(io.StringIO()):
-                isrn = InterSystemRecurrenceNetwork(x, y, threshold=(th, th, th), silence_level=3)
+                if by_rate:
+                    rr = tuple(rng.choice([0.2, 0.35, 0.5, 0.7]) for _ in range(3))
+                    isrn = InterSystemRecurrenceNetwork(x, y, recurrence_rate=rr, silence_level=3)
+                else:
+                    isrn = InterSystemRecurrenceNetwork(x, y, threshold=ths, silence_level=3)
         except Exception as e:  # noqa
             ctx.count("subclass:isrn-constructor-raises:" + type(e).__name__)
             continue
+        ctx.count("subclass:isrn:" + ("fixed-recurrence-rate" if by_rate else "fixed-threshold")
+                  + (":N_x=N_y" if nx == ny else ":N_x!=N_y"))
+        info = {"x": x.tolist(), "y": y.tolist(), "threshold": list(ths), "by_rate": by_rate}
+        todo.append(isrn_snapshot(isrn, f"object{len(todo)}"))
+        isrn_relations(ctx, isrn, info)
         c = as_case(isrn, "InterSystemRecurrenceNetwork")
         need_n = int(isrn.N_x) + int(isrn.N_y)
         if c.n != need_n:
@@ -1188,6 +1284,19 @@ def subclass_checks(ctx, quick):
                          {"x": x.tolist(), "y": y.tolist(), "threshold": th, "adjacency": c.A,
                           "method": nm, "expected": str(exp), "observed": str(got)})
 
+        # a second state of the same object (a multi-step history): new thresholds through the
+        # public setter, which replaces the adjacency held by the network
+        ths2 = tuple(rng.choice([0.125, 0.375, 0.625, 1.125, 1.625]) for _ in range(3))
+        try:
+            with contextlib.redirect_stdout(io.StringIO()):
+                isrn.set_fixed_threshold(ths2)
+            ctx.count("subclass:isrn:re-thresholded")
+            info2 = dict(info, threshold=list(ths2), after="set_fixed_threshold")
+            todo.append(isrn_snapshot(isrn, todo[-1][2].split()[0] + "-rethresholded"))
+            isrn_relations(ctx, isrn, info2)
+        except Exception as e:  # noqa
+            ctx.count("subclass:isrn-set_fixed_threshold-raises:" + type(e).__name__)
+    isrn_correspondence(ctx, todo)
 
 def hub_checks(ctx, quick):
     """large cross degrees: the library's degree dtype is int16, so a normalisation k(k-1)/2 or a
